@@ -392,6 +392,19 @@ FNUNITS = [
       "member_cursors": {"wlist_type": "wlist_bptr", "wlist_off": "wlist_bptr", "wlist_isize": "wlist_bptr", "wlist_order": "wlist_bptr",
                          "wlist_esize": "wlist_bptr"},
       "block_cell": {"wlist_bptr": 2}}),
+    # C02 / C05: the model/coder header of a compressed element (switch on the coder type; ENCODE / DECODE macros through the moving
+    # pointer parameter p; comp_info is a union: the members of ONE coder are touched per call).  comp_model_t / comp_coder_t are enums
+    # (unsigned int with gcc and clang); `&`/`|` on signed operands are two's complement; `(int32)` of a uint32 wraps (wrap_int_conv)
+    ("Hcomp", "hdf/src/hcomp.c", ["HCPencode_header", "HCPdecode_header"],
+     {"ignore_calls": ["HEclear", "HEPclear", "HEpush"], "twos_complement_bitops": True, "wrap_int_conv": True,
+      "int_types": {"comp_model_t": [False, 32], "comp_coder_t": [False, 32]}}),
+    # C15 / C02: the 20-byte image-dimension record DFTAG_ID / DFTAG_LD of the GR interface: the reader Decode_diminfo (called from
+    # GRIget_image_list) and the block of GRIupdatemeta that builds the record of the image (a FRAGMENT: the ENCODE macros between the
+    # two marker statements; `p` and the members of img_ptr->img_dim it reads are entry parameters)
+    ("MfgrRec", "hdf/src/mfgr.c", ["Decode_diminfo", "GRIupdatemeta_id"],
+     {"ignore_calls": ["HEclear", "HEPclear", "HEpush"], "twos_complement_bitops": True, "wrap_int_conv": True,
+      "fragments": {"GRIupdatemeta_id": {"of": "GRIupdatemeta", "from": "INT32ENCODE(p, img_ptr->img_dim.xdim)",
+                                         "to": "UINT16ENCODE(p, img_ptr->img_dim.comp_ref)"}}}),
 ]
 
 
